@@ -360,6 +360,17 @@ def rules():
     }
 
 
+@fp.fpy
+def rw_c(x: fp.Real, y: fp.Real, z: fp.Real) -> fp.Real:
+    # matches nested inside the bindings of other matches
+    p = (x * y + 201) * z + 202
+    q = (x + x) + (x + x)
+    if (p * q + 203) * x + 204 > 205:
+        p = (q * q + p) * ((y + y) * z + 206) + 207
+    return p + q
+
+
 ROOTS.append('rw_a')
+ROOTS.append('rw_c')
 ROOTS.append('rw_b')
 ROOTS.append('ir_a')
